@@ -1,10 +1,12 @@
 package main
 
 import (
+	"bytes"
 	"context"
 	"errors"
 	"fmt"
 	"net/http"
+	"net/http/httptest"
 	"runtime"
 	"strings"
 
@@ -294,6 +296,7 @@ func streamPanic(c *Ctx) {
 		}
 	}
 	c.exhaust = true
+	panicAfterDeadlineProbe(c)
 	// clean call followed by a panicking call on the same handler (state must not leak)
 	for _, kind := range kinds {
 		sequenceProbe(c, kind)
@@ -348,5 +351,57 @@ func sequenceProbe(c *Ctx, kind string) {
 	got := strings.Join(results, " ")
 	if got != "0:false:false 1:false:true 2:false:false 3:false:true" || calls != 2 {
 		c.Fail("recover-sequence", "clean call, panic, clean call, panic on one "+kind+" handler", fmt.Sprintf("%s calls=%d", got, calls), "recovery must work for every call of a handler, whatever earlier calls did")
+	}
+}
+
+// panicAfterDeadlineProbe (oracle only): the handler panics after its context has ended (the
+// peer's timeout passed, or the peer went away): still exactly one call of the recovery
+// function with the recovered value, and its error is what goes out.
+func panicAfterDeadlineProbe(c *Ctx) {
+	for _, proto := range []string{"connect", "grpc", "grpcweb"} {
+		for _, kind := range []string{"unary", "server"} {
+			var calls []any
+			handle := func(_ context.Context, _ connect.Spec, _ http.Header, v any) error {
+				calls = append(calls, v)
+				return connect.NewError(connect.CodeDataLoss, errors.New("recovered"))
+			}
+			var h http.Handler
+			if kind == "unary" {
+				h = connect.NewUnaryHandler("/s/m", func(ctx context.Context, r *connect.Request[[]byte]) (*connect.Response[[]byte], error) {
+					<-ctx.Done()
+					panic("late boom")
+				}, connect.WithCodec(rawCodec{"raw"}), connect.WithRecover(handle))
+			} else {
+				h = connect.NewServerStreamHandler("/s/m", func(ctx context.Context, r *connect.Request[[]byte], s *connect.ServerStream[[]byte]) error {
+					<-ctx.Done()
+					panic("late boom")
+				}, connect.WithCodec(rawCodec{"raw"}), connect.WithRecover(handle))
+			}
+			desc := fmt.Sprintf("%s %s handler that panics after its deadline (40 ms, from the peer's timeout header) has passed", proto, kind)
+			got := safely(func() string {
+				body := []byte{5}
+				if !(proto == "connect" && kind == "unary") {
+					body = frame(0, []byte{5})
+				}
+				req := httptest.NewRequest(http.MethodPost, "/s/m", bytes.NewReader(body))
+				req.ProtoMajor, req.ProtoMinor, req.Proto = 2, 0, "HTTP/2.0"
+				req.Header.Set("Content-Type", ctFor(proto, kind, "raw"))
+				if proto == "connect" {
+					req.Header.Set("Connect-Timeout-Ms", "40")
+				} else {
+					req.Header.Set("Grpc-Timeout", "40m")
+				}
+				rec := httptest.NewRecorder()
+				h.ServeHTTP(rec, req)
+				code, _ := responseErrorCode(proto, kind, rec)
+				return fmt.Sprintf("recovery calls=%d response code=%d", len(calls), code)
+			})
+			c.Count("panic-after-deadline")
+			if got != "recovery calls=1 response code=15" {
+				c.Fail("recover-count", desc, got, "a panic after the context ended still leads to exactly one call of the recovery function, whose error (data_loss) reaches the peer")
+			} else if calls[0] != "late boom" {
+				c.Fail("recover-value", desc, fmt.Sprintf("%#v", calls[0]), "the recovery function did not get the recovered value")
+			}
+		}
 	}
 }
